@@ -586,7 +586,7 @@ KNOWN_STEERING = ("stale-alias-after-wildcard-override", "dot-import-submodule-n
 def packages(draw, max_mods: int = 6, max_stmts: int = 6, allow_join: bool = False, all_forms: bool = True,
              class_bodies: bool = True, avoid: frozenset = frozenset(), on_excluded=None, wild_plain_only: bool = False,
              deco_defs: bool = False, weights: tuple = (4, 7, 9, 10, 11), strict_taint: bool = False,
-             self_names: bool = False, class_imports: bool = False):
+             self_names: bool = False, class_imports: bool = False, extra_names: tuple = ()):
     """Package models of profile `importable`. `avoid`: slugs of known findings to steer away from (by construction);
     `on_excluded(slug)` is called each time a choice is restricted because of one."""
     tree = draw(trees(2, max_mods))
@@ -629,6 +629,8 @@ def packages(draw, max_mods: int = 6, max_stmts: int = 6, allow_join: bool = Fal
         def pick_name():
             if self_pool and draw(st.integers(0, 3)) == 3:
                 return draw(st.sampled_from(self_pool))
+            if extra_names and draw(st.integers(0, 5)) == 5:
+                return draw(st.sampled_from(extra_names))  # e.g. `annotations`: `from .m import x as annotations`
             return draw(st.sampled_from(OBJ_NAMES))
 
         def local_stmt():
@@ -796,10 +798,10 @@ def _add_all(draw, case, mod, sim, sources, all_forms: bool, unique_helpers: boo
             ):
                 aliased.append(s_)
     if aliased and draw(st.integers(0, 2)) > 0:
-        splices.append((draw(st.sampled_from(aliased)), draw(st.sampled_from(("star-alias", "plus-alias")))))
+        splices.append((draw(st.sampled_from(aliased)), draw(st.sampled_from(("star-alias", "plus-alias", "aug-alias")))))
     elif all_forms and spliceable and draw(st.booleans()):
         for src in draw(st.lists(st.sampled_from(spliceable), min_size=1, max_size=2, unique=True)):
-            form = draw(st.sampled_from(("star", "plus", "aug", "star-attr", "plus-attr", "star-alias", "plus-alias", "star-alias", "plus-alias")))
+            form = draw(st.sampled_from(("star", "plus", "aug", "star-attr", "plus-attr", "aug-attr", "star-alias", "plus-alias", "aug-alias")))
             splices.append((src, form))
     pre: list = []  # binding statements that must precede the __all__ statement
     post: list = []  # __all__ += ... statements
